@@ -357,7 +357,10 @@ let () =
                        | U2fOk r -> (
                            let variant = match r with U2fRegister _ -> "Register" | U2fAuthenticate _ -> "Authenticate" | U2fVersion -> "Version" in
                            let err =
-                             if String.length beh > 4 && String.sub beh 0 4 = "err:" then
+                             if String.length beh > 5 && String.sub beh 0 5 = "errd:" then
+                               (* a status constructed directly: the handler's error is returned unchanged *)
+                               Some (String.sub beh 5 (String.length beh - 5))
+                             else if String.length beh > 4 && String.sub beh 0 4 = "err:" then
                                Some (match String.sub beh 4 (String.length beh - 4) with
                                      | "6985" -> "ConditionsOfUseNotSatisfied" | "6a80" -> "IncorrectDataParameter" | _ -> "UnspecifiedCheckingError")
                              else None
